@@ -764,6 +764,14 @@ func HarnessC17Location() {
 		s.PatternProperties = map[string]spec.Schema{"^p": leaf, "1$": other}
 		d = map[string]interface{}{"p1": bad, "q2": good}
 		want = join("p1")
+	case 7: // additionalItems schema: one element beyond a one-element tuple, at a solver-chosen position of the tail
+		s.Items = &spec.SchemaOrArray{Schemas: []spec.Schema{leaf}}
+		s.AdditionalItems = &spec.SchemaOrBool{Allows: true, Schema: &leaf}
+		arr := []interface{}{good, good, good, good}
+		pos := 1 + verifChoose(3)
+		arr[pos] = bad
+		d = arr
+		want = join(itoa(pos))
 	default: // two levels: property holding a tuple
 		arr := spec.Schema{}
 		arr.Items = &spec.SchemaOrArray{Schemas: []spec.Schema{leaf, leaf}}
